@@ -65,7 +65,17 @@ class SimLoop(asyncio.base_events.BaseEventLoop):
         return nt is not None and nt <= self.time() + self._clock_resolution
 
     def turn(self):
+        """One scheduling quantum of this loop's thread: a real _run_once(), optionally cut short
+        after the first m ready callbacks (another thread may run between any two callbacks)."""
         self.turns += 1
+        held = None
+        if len(self._ready) > 1 and self.ak.k.flip("partial_turn", self.ak.partial_p):
+            m = 1 + self.ak.k.choose("turn_len", len(self._ready) - 1)
+            ready = list(self._ready)
+            held = ready[m:]
+            self._ready.clear()
+            self._ready.extend(ready[:m])
+            self.ak.k.probe("partial_loop_turn")
         _events._set_running_loop(self)
         self._thread_id = _threading.get_ident()
         try:
@@ -73,6 +83,11 @@ class SimLoop(asyncio.base_events.BaseEventLoop):
         finally:
             self._thread_id = None
             _events._set_running_loop(None)
+            if held:
+                # the callbacks that did not get to run stay at the head of the queue, in order
+                new = list(self._ready)
+                self._ready.clear()
+                self._ready.extend(held + new)
         if self._stopping:
             self._stopping = False
             self.finished = True
@@ -82,8 +97,9 @@ class SimLoop(asyncio.base_events.BaseEventLoop):
 class AioKernel:
     """Pumps the simulated loops and executor completions; owns all scheduling decisions."""
 
-    def __init__(self, k, max_steps=400000, stall_p=0.0):
+    def __init__(self, k, max_steps=400000, stall_p=0.0, partial_p=0.2):
         self.k = k
+        self.partial_p = partial_p
         self.loops = []
         self.max_steps = max_steps
         self.steps = 0
